@@ -47,7 +47,7 @@ def obligations(tier):
     for dbl in (0, 1):
         for ot in (2, 3):
             for ch in (1, 2):
-                quick_pos = [(17, 0, -1), (17, 16, -1), (17, 0, 5), (17, 15, 3), (2, 1, -1)]
+                quick_pos = [(17, 0, -1), (17, 16, -1), (17, 0, 5), (17, 15, 3), (2, 1, -1), (15, 14, -1), (31, 30, -1)]      # 15 / 31: one frame short of a whole unrolled block of 16
                 thor_pos = quick_pos + [(17, 1, -1), (17, 15, -1), (17, 7, 0), (17, 0, 16), (17, 16, 2), (33, 16, 20), (33, 31, 17), (33, 32, -1)]
                 for (n, k, ovf) in (quick_pos if tier == 'quick' else thor_pos):
                     obls.append(conv(dbl, ot, ch, n, k, c=(ch - 1), ovf=ovf))
